@@ -35,6 +35,7 @@ const PROOF: &[&str] = &[
     "older-retained-bypass-operator",
     "bypass-without-operator",
     "older-retained-bypass-without-operator",
+    "prevalidated-when-newest-now-older",
     "unknown-set",
     "proof-for-other-candidate",
     "expired-set-bypass",
@@ -373,7 +374,20 @@ pub fn run(ctx: &Ctx, rep: &mut Report) {
             rep.violation("lookups-inconsistent-after:deployment", d);
             continue;
         }
+        // rotation proofs that were checked through the standalone validate_proof entry point while
+        // their signer set was the newest, but never used
+        let mut stash: Vec<(MSigners, ProofPlan)> = Vec::new();
         for _ in 0..28 {
+            if rng.chance(1, 4) && stash.len() < 4 {
+                let cand = gen_wellformed_set(&mut rng, &mut ring, 3);
+                let newest = g.model.sets.last().unwrap().clone();
+                let plan = plan_honest(&ring, &g.model.domain, &newest, &cand.rotation_data_hash(), &all_slots(&newest));
+                let o = g.do_validate_proof(&mut u, &cand.rotation_data_hash(), &plan);
+                rep.count("prevalidate");
+                if o.ok() {
+                    stash.push((cand, plan));
+                }
+            }
             // ledger time moves on arbitrarily; the delay is 0 here (C09 owns the clock)
             u.set_time(u.time() + rng.below(3));
             if rng.chance(1, 8) {
@@ -434,6 +448,10 @@ pub fn run(ctx: &Ctx, rep: &mut Report) {
                     let a = match rng.below(3) { 0 => Auth::Nobody, 1 => Auth::AllBy(stranger.clone()), _ => Auth::AllBy(owner.clone()) };
                     (plan_honest(&ring, &m.domain, &s, &dh, &all_slots(&s)), true, a, false)
                 }
+                "prevalidated-when-newest-now-older" => {
+                    // handled below (it brings its own candidate)
+                    (plan_honest(&ring, &m.domain, &newest, &dh, &all_slots(&newest)), false, Auth::Nobody, false)
+                }
                 "bypass-without-operator" => {
                     let a = match rng.below(3) { 0 => Auth::Nobody, 1 => Auth::AllBy(stranger.clone()), _ => Auth::AllBy(owner.clone()) };
                     (plan_honest(&ring, &m.domain, &newest, &dh, &all_slots(&newest)), true, a, false)
@@ -465,6 +483,19 @@ pub fn run(ctx: &Ctx, rep: &mut Report) {
                     (plan_honest(&ring, &m.domain, &newest, &dh, &sub), false, Auth::Nobody, false)
                 }
             };
+            // a stashed, pre-validated proof: the candidate is the one it was made for
+            let (cand, plan, cclass) = if pclass == "prevalidated-when-newest-now-older" {
+                let pos = stash.iter().position(|(_, p)| g.model.epoch_of(&p.declared) != Some(g.model.epoch()));
+                match pos {
+                    Some(i) => {
+                        let (c, p) = stash.remove(i);
+                        (c, p, "fresh")
+                    }
+                    None => continue,
+                }
+            } else {
+                (cand, plan, cclass)
+            };
             let class_sig = format!("{}+{}", cclass, pclass);
             rep.count(&format!("cand:{}", cclass));
             rep.count(&format!("proof:{}", pclass));
@@ -484,5 +515,5 @@ pub fn run(ctx: &Ctx, rep: &mut Report) {
     req.push("construct-malformed-inside".into());
     req.push("construct-three".into());
     rep.notes.insert("required".into(), json!(req));
-    rep.notes.insert("rule".into(), json!("3 of 4 universes: gateway (delay 0, retention in {0,1,3}, 1-3 initial sets) and 28 rotation attempts, interleaved with ledger advancement of up to 1.3 M ledgers, = candidate class (12: fresh, total exactly u128::MAX, earlier set with other nonce, empty, adjacent equal keys, descending pair, zero weight, total overflowing u128, threshold 0 / total+1, earlier set verbatim, all-zero first key) x proof class (9: newest, older retained with/without bypass, bypass without operator by the newest or an older retained set, unknown set, proof for another candidate, expired set with bypass, one signer short); after every attempt epoch(), signers_hash_by_epoch(0..=epoch+1) and epoch_by_signers_hash(every hash ever seen, including rejected candidates) are compared with the model. 1 of 4 universes: 6 constructor attempts through a factory (0/1/3 sets, duplicate or malformed member inside, same set with other nonce). distinct = (candidate class, proof class, expectation, outcome, epoch)"));
+    rep.notes.insert("rule".into(), json!("3 of 4 universes: gateway (delay 0, retention in {0,1,3}, 1-3 initial sets) and 28 rotation attempts, interleaved with ledger advancement of up to 1.3 M ledgers, = candidate class (12: fresh, total exactly u128::MAX, earlier set with other nonce, empty, adjacent equal keys, descending pair, zero weight, total overflowing u128, threshold 0 / total+1, earlier set verbatim, all-zero first key) x proof class (10: newest, a proof checked earlier through validate_proof while its set was the newest and used after it stopped being the newest, older retained with/without bypass, bypass without operator by the newest or an older retained set, unknown set, proof for another candidate, expired set with bypass, one signer short); after every attempt epoch(), signers_hash_by_epoch(0..=epoch+1) and epoch_by_signers_hash(every hash ever seen, including rejected candidates) are compared with the model. 1 of 4 universes: 6 constructor attempts through a factory (0/1/3 sets, duplicate or malformed member inside, same set with other nonce). distinct = (candidate class, proof class, expectation, outcome, epoch)"));
 }
